@@ -32,7 +32,7 @@ Qed.
 Lemma backfill_step s v p q s' : WL s v -> WK s v -> 1 <= p <= pageN s -> alookup p (wpages s) = Some q ->
   op_write_page s p q = (Done, s') -> WL s' v /\ WK s' v /\ lockpg s' = lockpg s.
 Proof.
-  intros HW HK Hp Hq H. destruct HW as [Ww Wm Wl Wc Wz Wv Wt Wk]. destruct HK as [k_scan0 k_last0 k_hash0 k_keys0 k_truth0 k_empty0 k_pos0 k_nodup0].
+  intros HW HK Hp Hq H. destruct HW as [Ww Wm Wl Wc Wz Wv Wt Wk]. destruct HK as [k_scan0 k_last0 k_hash0 k_keys0 k_truth0 k_empty0 k_pos0 k_nodup0 k_in0].
   unfold op_write_page in H. rewrite Ww, Wm in H. cbn [negb] in H. inversion H; subst s'. clear H.
   destruct (write_db_page_facts s p q ltac:(lia) Wl Wc Wz) as [A1 [A2 [A3 [A4 [A5 [A6 [A7 [A8 [A9 A10]]]]]]]]].
   set (s' := write_db_page s p q) in *. cbn zeta in *.
@@ -65,6 +65,51 @@ Proof.
     + rewrite Ep, Ek. exact k_empty0.
     + rewrite Ep. exact k_pos0.
     + rewrite Ep. exact k_nodup0.
+    + intros x qx Hl Hle Hnl. rewrite Ep in Hl. rewrite A4 in Hle. rewrite A3 in Hnl. rewrite Ek. apply (k_in0 x qx Hl Hle Hnl).
+Qed.
+
+(* ... whatever version SQLite copies (readers may hold the checkpoint back at an older one): the page keeps answering from
+   its WAL checksums, the cache slot and the file move together *)
+Lemma backfill_any_step s v p q s' : WL s v -> WK s v -> 1 <= p <= pageN s -> alookup p (wpages s) <> None ->
+  op_write_page s p q = (Done, s') -> WL s' v /\ WK s' v /\ lockpg s' = lockpg s.
+Proof.
+  intros HW HK Hp Hin H. destruct HW as [Ww Wm Wl Wc Wz Wv Wt Wk].
+  destruct HK as [k_scan0 k_last0 k_hash0 k_keys0 k_truth0 k_empty0 k_pos0 k_nodup0 k_in0].
+  unfold op_write_page in H. rewrite Ww, Wm in H. cbn [negb] in H. inversion H; subst s'. clear H.
+  destruct (write_db_page_facts s p q ltac:(lia) Wl Wc Wz) as [A1 [A2 [A3 [A4 [A5 [A6 [A7 [A8 [A9 A10]]]]]]]]].
+  set (s' := write_db_page s p q) in *. cbn zeta in *.
+  assert (Ek : wal_chk s' = wal_chk s) by reflexivity.
+  assert (Es : wscan s' = wscan s) by reflexivity.
+  assert (Ep : wpages s' = wpages s) by reflexivity.
+  assert (Hcov : forall x, Cov s' x <-> Cov s x) by (intros x; unfold Cov; rewrite Ep, A4; tauto).
+  split; [|split; [|exact A3]].
+  - constructor.
+    + congruence.
+    + congruence.
+    + rewrite A3. exact Wl.
+    + exact A1.
+    + exact A2.
+    + intros x Hx Hnl. rewrite A4 in *. rewrite A3 in Hnl. pose proof (Wv x Hx Hnl) as Hv.
+      rewrite eff_cases in Hv by (assumption || lia). rewrite eff_cases by (rewrite ?A3; assumption || lia). rewrite Ek.
+      destruct (N.eq_dec x p) as [->|Hne].
+      * destruct (alookup p (wpages s)) as [qp|] eqn:Eq; [|contradiction Hin; reflexivity].
+        destruct (k_in0 p qp Eq ltac:(lia) Hnl) as [l [c [El Ec]]]. rewrite El, Ec in *. exact Hv.
+      * destruct (alookup x (wal_chk s)) as [l|]; [destruct (last_or0 l) as [c|]|]; try exact Hv;
+          rewrite A9 by lia; destruct (N.eqb_spec x p); try contradiction; exact Hv.
+    + intros x Hx. rewrite A4 in Hx. rewrite Ek, A9 by lia. destruct (N.eqb_spec x p); [lia|]. apply Wt. assumption.
+    + rewrite A8, A4, A3. exact Wk.
+  - constructor.
+    + rewrite Es. exact k_scan0.
+    + rewrite Ep, Es, A4. exact k_last0.
+    + intros x qx Hl Hle Hnl. rewrite Ep in Hl. rewrite A4 in Hle. rewrite A3 in Hnl. apply (k_hash0 x qx Hl Hle Hnl).
+    + intros x Hnl Hx. rewrite A3 in Hnl. rewrite Ek in Hx. apply Hcov. apply (k_keys0 x Hnl Hx).
+    + intros x Hx Hnl. rewrite A3 in Hnl. rewrite A9, A10 by assumption. destruct (N.eqb_spec x p) as [->|Hne].
+      * left. destruct (N.eqb_spec p (lockpg s)); [contradiction|reflexivity].
+      * destruct (k_truth0 x Hx Hnl) as [E|[Z Cv]]; [left; exact E|right; split; [exact Z|apply Hcov; exact Cv]].
+    + rewrite Ep, Ek. exact k_empty0.
+    + rewrite Ep. exact k_pos0.
+    + rewrite Ep. exact k_nodup0.
+    + intros x qx Hl Hle Hnl. rewrite Ep in Hl. rewrite A4 in Hle. rewrite A3 in Hnl. rewrite Ek. apply (k_in0 x qx Hl Hle Hnl).
 Qed.
 
 (* ---- a complete checkpoint and the restart of the log: SQLite copies the last committed version of every page of the log
@@ -85,7 +130,7 @@ Lemma sqlckpt_step s v s' : WL s v -> WK s v -> run_group s (sql_ckpt_ops s) = (
   WL s' v /\ WK s' v /\ lockpg s' = lockpg s /\ txid s' = txid s /\ pageN s' = pageN s /\ wal_file s' = [] /\
   (forall p, 1 <= p <= pageN s' -> p <> lockpg s' -> file_h s' p = v p).
 Proof.
-  intros HW HK H. destruct HW as [Ww Wm Wl Wc Wz Wv Wt Wk]. destruct HK as [k_scan0 k_last0 k_hash0 k_keys0 k_truth0 k_empty0 k_pos0 k_nodup0].
+  intros HW HK H. destruct HW as [Ww Wm Wl Wc Wz Wv Wt Wk]. destruct HK as [k_scan0 k_last0 k_hash0 k_keys0 k_truth0 k_empty0 k_pos0 k_nodup0 k_in0].
   unfold sql_ckpt_ops in H. rewrite run_group_app, (run_wal_writes _ s Ww Wm) in H.
   assert (HposL : forall p q, In (p, q) (backfill_list s) -> 1 <= p).
   { intros p q Hin. apply filter_In in Hin. apply (k_pos0 p q). tauto. }
@@ -141,6 +186,7 @@ Proof.
     + reflexivity.
     + intros p q [].
     + constructor.
+    + intros p q Hl. discriminate.
   - intros p Hp Hnl. rewrite HpN in Hp. rewrite Hlk in Hnl. apply (Hd p Hp Hnl).
 Qed.
 
@@ -149,18 +195,25 @@ Inductive wop2 :=
 | W2Commit (fr : list (N * pg)) (c : N)
 | W2Checkpoint                              (* LiteFS's own *)
 | W2Backfill (p : N)                        (* SQLite copies the log's version of page p into the database file *)
+| W2BackfillOld (p : N) (q : pg)            (* ... or an older version q of it (readers hold the checkpoint back) *)
 | W2SqlRestart.                             (* SQLite copies everything, cuts the file, starts the log over *)
 Definition wop2_ops (s : st) (o : wop2) : list op :=
   match o with
   | W2Commit fr c => [OCommitWal fr c]
   | W2Checkpoint => [OCheckpoint]
   | W2Backfill p => match alookup p (wpages s) with Some q => [OWrite p q] | None => [] end
+  | W2BackfillOld p q => [OWrite p q]
   | W2SqlRestart => sql_ckpt_ops s
   end.
 Definition wop2_view (lock : N) (o : wop2) (v : N -> N) : N -> N :=
   match o with W2Commit fr c => overlay lock fr c v | _ => v end.
 Definition wf_wop2 (s : st) (o : wop2) : Prop :=
-  match o with W2Commit fr c => wf_wal2 s fr c | W2Backfill p => 1 <= p <= pageN s | _ => True end.
+  match o with
+  | W2Commit fr c => wf_wal2 s fr c
+  | W2Backfill p => 1 <= p <= pageN s
+  | W2BackfillOld p q => 1 <= p <= pageN s /\ alookup p (wpages s) <> None       (* a page of the database that is in the log *)
+  | _ => True
+  end.
 Fixpoint run_wops2 (s : st) (v : N -> N) (os : list wop2) : option (st * (N -> N)) :=
   match os with
   | [] => Some (s, v)
@@ -179,7 +232,7 @@ Proof.
   - inversion H; subst. auto.
   - destruct Hwf as [Hw Hrest]. destruct (run_group s (wop2_ops s o)) as [code s1] eqn:E. destruct code; [|discriminate].
     assert (WL s1 (wop2_view (lockpg s) o v) /\ WK s1 (wop2_view (lockpg s) o v) /\ lockpg s1 = lockpg s) as [HW1 [HK1 El1]].
-    { destruct o as [fr c| |p|]; cbn [wop2_ops wop2_view wf_wop2] in *.
+    { destruct o as [fr c| |p|p q|]; cbn [wop2_ops wop2_view wf_wop2] in *.
       - apply run_group_one in E. cbn [step] in E.
         destruct (w_step s v fr c s1 HW (proj1 Hw) E) as [A [Bq _]]. split; [exact A|]. split; [|exact Bq].
         apply (k_step s v fr c s1 HW HK Hw E).
@@ -187,6 +240,7 @@ Proof.
       - destruct (alookup p (wpages s)) as [q|] eqn:El.
         + apply run_group_one in E. cbn [step] in E. apply (backfill_step s v p q s1 HW HK Hw El E).
         + cbn [run_group] in E. inversion E; subst. auto.
+      - apply run_group_one in E. cbn [step] in E. apply (backfill_any_step s v p q s1 HW HK (proj1 Hw) (proj2 Hw) E).
       - destruct (sqlckpt_step s v s1 HW HK E) as [A [Bq [C _]]]. auto. }
     destruct (IH s1 _ s' v' HW1 HK1 (Hrest s1 eq_refl) H) as [HW' [HK' El']]. split; [exact HW'|]. split; [exact HK'|congruence].
 Qed.
@@ -222,7 +276,7 @@ Lemma wal_full_history_example :
   let pw h := mkPg (fl h) 0 true in
   let hs := [HTx [] [AWrite 1 (pg 11); AWrite 2 (pg 12)] 2] in
   let sw := [AWrite 1 (pw 13)] in
-  let os := [W2Commit [(2, pw 22); (3, pw 33); (2, pw 23)] 3; W2Backfill 2; W2Commit [(1, pw 14)] 2; W2SqlRestart;
+  let os := [W2Commit [(2, pw 22); (3, pw 33); (2, pw 23)] 3; W2BackfillOld 2 (pw 22); W2Backfill 2; W2Commit [(1, pw 14)] 2; W2SqlRestart;
              W2Commit [(3, pw 35); (1, pw 15)] 3; W2Checkpoint] in
   exists s1 s2,
     wf_hist (init 2097153) hs /\ run_hsteps (init 2097153) hs = Some s1 /\
@@ -249,6 +303,7 @@ Proof.
   Ltac nogrowthb p Hp := lia.
   Ltac next s E := intros s E; vm_compute in E; inversion E; subst s; clear E.
   cbn [wf_wops2 wf_wop2]. split. { wal3 grown3b. }
+  next sa0 Ea0. split. { split; [cbn [pageN]; lia|vm_compute; discriminate]. }
   next sa Ea. split. { cbn [pageN]. lia. }
   next sb Eb. split. { wal3 nogrowthb. }
   next sc Ec. split; [exact I|].
